@@ -29,9 +29,14 @@ class Dec:
             return ('g', s.name(v))
         if k == 'num':
             if rty.k == 'int': return ('c', iv(rty.a, int(v)))
-            if rty.k in ('double', 'float'): return ('c', ('f', float(v)))
+            if rty.k in ('double', 'float', 'x86_fp80'): return ('c', ('f', float(v)))
         if k == 'hex':
             if rty.k in ('double', 'float'): return ('c', ('f', bits2d(int(v, 16))))
+            if rty.k == 'x86_fp80' and v.startswith('0xK'):
+                # 80-bit extended constant, carried as a double (long double only occurs in libstdc++'s generate_canonical scaling constants)
+                bits = int(v[3:], 16); sign = -1.0 if bits >> 79 else 1.0; e = (bits >> 64) & 0x7fff; m = bits & ((1 << 64) - 1)
+                if e == 0 and m == 0: return ('c', ('f', 0.0 * sign))
+                return ('c', ('f', sign * (m / float(1 << 63)) * 2.0 ** (e - 16383)))
         if k == 'word':
             if v == 'null': return ('c', NULL)
             if v == 'true': return ('c', iv(1, 1))
@@ -72,7 +77,7 @@ class Dec:
         if t.k in ('arr', 'vec'): return ('agg', [s.zero_agg(t.b, undef) for _ in range(t.a)])
         if undef: return UNDEF
         if t.k == 'int': return iv(t.a, 0)
-        if t.k in ('double', 'float'): return ('f', 0.0)
+        if t.k in ('double', 'float', 'x86_fp80'): return ('f', 0.0)
         if t.k == 'ptr': return NULL
         raise Unsupported('zero of %r' % t)
 
